@@ -14,6 +14,8 @@ pub struct GenCfg {
   pub w_transfer: u64,
   pub w_reveal: u64,
   pub w_rune: u64,
+  /// weight of the adversarial class (robustness runs)
+  pub w_adversarial: u64,
   /// probability (per mille) that a coinbase is a byte-identical repeat of an earlier one
   pub dup_coinbase_permille: u64,
   /// blocks before a coinbase output may be spent (>= 1)
@@ -27,7 +29,7 @@ pub struct GenCfg {
 
 impl Default for GenCfg {
   fn default() -> Self {
-    GenCfg { w_transfer: 10, w_reveal: 0, w_rune: 0, dup_coinbase_permille: 0, maturity: 1, max_txs: 6, utxo_target: 120, odd_outputs: true }
+    GenCfg { w_transfer: 10, w_reveal: 0, w_rune: 0, w_adversarial: 0, dup_coinbase_permille: 0, maturity: 1, max_txs: 6, utxo_target: 120, odd_outputs: true }
   }
 }
 
@@ -271,11 +273,12 @@ impl Gen {
     };
     for _ in 0..n_txs {
       let consolidate = avail.len() > self.cfg.utxo_target && rng.chance(2, 3);
-      let class = rng.weighted(&[self.cfg.w_transfer, self.cfg.w_reveal, self.cfg.w_rune]);
+      let class = rng.weighted(&[self.cfg.w_transfer, self.cfg.w_reveal, self.cfg.w_rune, self.cfg.w_adversarial]);
       let tx = match class {
         0 => self.transfer(rng, &mut avail, consolidate),
         1 => crate::gen_insc::reveal(self, rng, &mut avail, model, height),
-        _ => crate::gen_runes::rune_tx(self, rng, &mut avail, model, height, txs.len() as u32 + 1),
+        2 => crate::gen_runes::rune_tx(self, rng, &mut avail, model, height, txs.len() as u32 + 1),
+        _ => crate::gen_insc::adversarial(self, rng, &mut avail, model, height),
       };
       let Some(tx) = tx else { continue };
       let total_in: u64 = tx
